@@ -36,6 +36,9 @@ RULE = (
     "each flip counts once"
     ' Every signed message of an envelope is also offered with a non-zero TSIG error (peer-signed and set in transit).'
 )
+RULE += (
+    " Rounds 9-10 added: the same Message rendered again 0/1/fudge+1 s later; validation with origin= the key name, its parent and the root under every keyring form."
+)
 ASSUMPTIONS = [
     "vlib/ref/tsig_ref.py (hashlib/hmac only) is the trusted RFC 8945 composer",
     "which bits are authenticated is decided by the reference digest input of the flipped octets, not "
